@@ -54,7 +54,7 @@ def operators(ctx):
             role[a] = "present"
         elif a[0] == "Eq" and "param:field_value" in a[1:] and any(re.match(r"Some\(param:self@(Equals|NotEquals)\.0\)$", x) for x in a[1:]):
             role[a] = "eq"
-        elif a[0] == "any" and re.match(r"param:self@(In|NotIn)\.0$", a[1]) and a[2] == "('Eq', 'ELEM', 'payload(param:field_value)')":
+        elif a[0] == "any" and re.match(r"param:self@(In|NotIn)\.0$", a[1]) and a[2] == "('Eq', 'ELEM', 'param:field_value@Some.0')":
             role[a] = "member"
         else:
             unknown.append(a)
@@ -145,6 +145,17 @@ def meta_adapter(ctx):
                     pa = boolform.atoms_of(pred)
                     predok = pred[0] == "atom" and "matches_filters" in str(pred[1]) and "ELEM" in str(pred[1])
                     ok = srcok and predok
+            # in place: targets.retain(|t| self.matches_filters(t)); Ok(targets)
+            if not ok and param_path(v) == ("targets", []):
+                rts = calls(fb, ("Vec::<T, A>::retain", "Vec::retain"))
+                # every call that may change the list: a `&mut` argument that is (a view of) `targets`
+                changers = [(bb2, t2) for bb2, t2 in fb.calls() if not fb.is_noise(t2)
+                            and any(str(ty).startswith("&mut") and param_path(arg(an, bb2, t2, i)) == ("targets", []) for i, ty in enumerate(t2.argtys))]
+                if len(rts) == 1 and changers == [rts[0]]:
+                    rb_, rt_ = rts[0]
+                    pred = boolform.closure_formula(ctx, flow.strip(arg(an, rb_, rt_, 1)), ["ELEM"])
+                    predok = pred[0] == "atom" and "matches_filters" in str(pred[1]) and "ELEM" in str(pred[1])
+                    ok = predok and param_path(arg(an, rb_, rt_, 0)) == ("targets", [])
         ctx.check(ok, R, "C18/operators/filter-keeps-matching", fb.loc,
                   reason="MetaFilterAdapter::filter returns %s; expected targets.into_iter().filter(|t| self.matches_filters(t)).collect()" % render(r, maxdepth=6),
                   detail="filter = targets.into_iter().filter(matches_filters).collect() (order preserved)")
@@ -155,17 +166,12 @@ def outcomes(ctx, body):
     'delegate' (inner filter call with unchanged args) or 'other:<text>'"""
     an = ctx.an(body)
     out = []
-    for conds, blocks in boolform.paths(ctx, body):
-        cf = []
-        for sb, tb in conds:
-            e, ls = an.switch_info(sb)
-            x = flow.strip(e)
-            # skip the await/`?` plumbing of delegation
-            if x[0] == "call" and flow.short(x[1]).endswith(("Future::poll", "Try::branch")):
-                continue
-            if x[0] in ("await",):
-                continue
-            cf.append(boolform.cond_formula(ctx, e, ls.get(tb, []), None))
+    def plumbing(e):
+        # the await/`?` plumbing of delegation
+        x = flow.strip(e)
+        return (x[0] == "call" and flow.short(x[1]).endswith(("Future::poll", "Try::branch"))) or x[0] == "await"
+    for conds, blocks in boolform.paths(ctx, body, loops=True):
+        cf = boolform.conds_formulas(ctx, body, conds, None, skip=plumbing)
         v = boolform.path_value(ctx, body, blocks)
         out.append((f_and(*cf), classify_result(v), blocks))
     return out
@@ -261,7 +267,9 @@ def allow_block(ctx):
         unknown = []
         for a in ats:
             s = str(a)
-            if a[0] == "is" and a[2] in ("Some", "None") and re.search(r"self\.(usernames|username|ids)$", a[1]):
+            if a[0] == "some" and re.search(r"self\.(usernames|username|ids)$", a[1]):
+                role[a] = ("cfg", re.search(r"self\.(usernames|username|ids)$", a[1]).group(1), "Some")
+            elif a[0] == "is" and a[2] in ("Some", "None") and re.search(r"self\.(usernames|username|ids)$", a[1]):
                 fld = re.search(r"self\.(usernames|username|ids)$", a[1]).group(1)
                 role[a] = ("cfg", fld, a[2])
             elif a[0] == "any" and re.search(r"self\.(usernames|ids)@Some\.0$", a[1]):
@@ -399,6 +407,15 @@ def strategies(ctx):
             last = x
             x = x[3][0]
     want = ["map", "max_by_key", "filter", "map", "iter"]
+    SELECTORS = ("iter", "into_iter", "max_by_key", "min_by_key", "max_by", "min_by", "filter", "find", "fold", "reduce", "last", "next", "nth",
+                 "first", "position", "rev", "skip", "take", "filter_map", "find_map")
+    if chain[:5] != want and not any(n in SELECTORS for n in chain):
+        # not an iterator-combinator selection at all (e.g. a hand-written loop with an accumulator): deciding "the fullest
+        # target below capacity" for an arbitrary loop is a verification problem, not a shape; the rule says so instead of guessing
+        ctx.undecided(R, "C18/strategies/fill-chain", pb.loc,
+                      "PlayerFill::select does not compute its result with an iterator-combinator chain over `targets` (result built by %s); "
+                      "the selection rule (fullest target strictly below max_players, last wins on ties) is not decided for this implementation" % (chain or "a loop"))
+        return
     ctx.check(chain[:5] == want, R, "C18/strategies/fill-chain", pb.loc,
               reason="PlayerFill is computed by %s; expected targets.iter().map(count).filter(below capacity).max_by_key(count).map(clone)" % chain,
               detail="fill = iter.map(count).filter(<max).max_by_key(count).map(clone)")
